@@ -2,6 +2,7 @@
 from __future__ import annotations
 
 import ast
+import re
 from typing import Dict, List, Optional, Set, Tuple
 
 from ..defuse import assignments, bindings, call_arg, names_in
@@ -801,6 +802,42 @@ def _r18_7(prog: Program, res: Result) -> None:
 
 
 # ------------------------------------------------------------------------------------------------ R18.9
+def _bool_struct(e: ast.AST):
+    """Boolean structure of a test over opaque atoms; `x not in S` is not(in(x, S))."""
+    if isinstance(e, ast.BoolOp):
+        return ("and" if isinstance(e.op, ast.And) else "or", [_bool_struct(v) for v in e.values])
+    if isinstance(e, ast.UnaryOp) and isinstance(e.op, ast.Not):
+        return ("not", _bool_struct(e.operand))
+    if isinstance(e, ast.Compare) and len(e.ops) == 1 and isinstance(e.ops[0], (ast.In, ast.NotIn)):
+        a = ("atom", f"in({norm(e.left)}, {norm(e.comparators[0])})")
+        return a if isinstance(e.ops[0], ast.In) else ("not", a)
+    return ("atom", norm(e))
+
+
+def _struct_atoms(s) -> set:
+    if s[0] == "atom":
+        return {s[1]}
+    if s[0] == "not":
+        return _struct_atoms(s[1])
+    return set().union(*[_struct_atoms(x) for x in s[1]]) if s[1] else set()
+
+
+def _eval_struct(s, env) -> bool:
+    if s[0] == "atom":
+        return env[s[1]]
+    if s[0] == "not":
+        return not _eval_struct(s[1], env)
+    vals = [_eval_struct(x, env) for x in s[1]]
+    return all(vals) if s[0] == "and" else any(vals)
+
+
+def _assignments(atoms):
+    import itertools
+    for bits in itertools.product((False, True), repeat=len(atoms)):
+        yield dict(zip(atoms, bits))
+
+
+# ------------------------------------------------------------------------------------------------ R18.9
 def _r18_9(prog: Program, res: Result) -> None:
     """`import a.b` binds the name `a`.  It is in use whenever `a` is - also when the text `a.b` never occurs (`a.x`).
     The unused-import computation compares imported names with the dotted names that occur; for a dotted import it must
@@ -816,6 +853,28 @@ def _r18_9(prog: Program, res: Result) -> None:
             if isinstance(x, ast.Name):
                 blob += " " + " ".join(norm(d) for _, d in assignments(fn, x.id) if d is not None)
     first_component = any(k in blob for k in (".split('.')[0]", '.split(".")[0]', ".partition('.')[0]", '.partition(".")[0]'))
+    # ... and the fallback is a NECESSARY condition of "unused": the filter of the comprehension that builds the result must
+    # entail `first component not in <used names>` (propositional entailment over the atoms of the filter; a disjunct that
+    # reports a dotted import as unused for another reason - "the bare package is imported somewhere as well" - breaks it)
+    if first_component:
+        comps = []
+        for r in rets:
+            cands = [r.value] + [d for x in ast.walk(r.value) if isinstance(x, ast.Name) for _, d in assignments(fn, x.id) if d is not None]
+            comps += [c for c in cands if isinstance(c, (ast.SetComp, ast.ListComp, ast.GeneratorExp)) and any("split" in norm(i) or "partition" in norm(i) for g in c.generators for i in g.ifs)]
+        for c in comps:
+            conds = [i for g in c.generators for i in g.ifs]
+            struct = ("and", [_bool_struct(i) for i in conds])
+            atoms = sorted(_struct_atoms(struct))
+            goal_atoms = [a for a in atoms if re.fullmatch(r"in\((\w+)\.(split|partition)\((['\"])\.\3\)\[0\], *\w+\)", a)]
+            necessary = False
+            for ga in goal_atoms:
+                necessary = necessary or all(not env[ga] for env in _assignments(atoms) if _eval_struct(struct, env))
+            first_component = first_component and necessary
+            if not necessary:
+                res.bad("R18.9", fn.loc(c), fn.fq, f"{short(c, 90)} # which imports are unused",
+                        "the filter lets a dotted import through as unused although its first component is in use: `import a.b` is removed while `a.x` still "
+                        "needs the name it binds (the test of the first component must hold for every name that is reported)")
+                return
     res.decide(first_component, "R18.9", fn.loc(rets[-1]) if rets else fn.loc(), fn.fq, "dotted imports",
                "a dotted import counts as used when its first component is used" if first_component else
                "an import `a.b` is unused as soon as the text `a.b` does not occur, although `a.x` uses the name it binds: `import a.b` is removed and `a` becomes a NameError")
@@ -912,6 +971,10 @@ def _r18_6(prog: Program, res: Result) -> None:
 from ..selftest import Variant  # noqa: E402
 
 VARIANTS = [
+    Variant("dotted-import-unused-when-the-bare-package-is-imported-somewhere", "FIRE", "fixes", '    return {name for name in imports - names - {"*"} if name.split(".")[0] not in names}\n',
+            '    return {\n        name\n        for name in imports - names - {"*"}\n        if name.split(".")[0] not in names or ("." in name and name.split(".")[0] in imports)\n    }\n', "R18.9"),
+    Variant("unused-imports-filtered-by-a-further-conjunct", "SILENT", "fixes", '    return {name for name in imports - names - {"*"} if name.split(".")[0] not in names}\n',
+            '    return {\n        name\n        for name in imports - names - {"*"}\n        if not name.startswith("__") and name.split(".")[0] not in names\n    }\n'),
     Variant("function-level-imports-redirected-again", "FIRE", "tracing", "    for node in core.filter_nodes(root.body, ast.ImportFrom):\n        if node.level:", "    for node in core.walk(root, ast.ImportFrom):\n        if node.level:", "R18.17"),
     Variant("insertion-line-from-any-scope", "FIRE", "tracing", "        (node.lineno for node in core.filter_nodes(root.body, (ast.ImportFrom, ast.Import))),", "        (node.lineno for node in core.walk(root, (ast.ImportFrom, ast.Import))),", "R18.17"),
     Variant("module-level-imports-by-isinstance", "SILENT", "tracing", "    for node in core.filter_nodes(root.body, ast.ImportFrom):\n        if node.level:", "    for node in [statement for statement in root.body if isinstance(statement, ast.ImportFrom)]:\n        if node.level:", "R18.17"),
